@@ -460,6 +460,8 @@ impl WebSocketContext {
                     Err(err) => return Err(err),
                 }
             } else if self.role == Role::Server && !self.state.can_read() {
+                // Our close frame may still sit in the write buffer (e.g. the write blocked).
+                self.frame.write_out_buffer(stream)?;
                 self.state = WebSocketState::Terminated;
                 return Err(Error::ConnectionClosed);
             }
